@@ -5,8 +5,10 @@ runs in a forked child that streams one JSON line per step to the parent; the pa
 watchdog (a cyclic chain makes the recursive CTE of a flattening query loop forever), so a hang is reported
 with the step at which it happened and everything observed before it.
 
-Names: collection i -> "c<i>", dataset type t -> "dt<t>", data ID d -> instrument "Cam<d // 16>",
-detector d % 16, dataset k -> the UUID the implementation returned for the k-th successful put.
+Names: collection i -> "c<i>"; dataset types 0 dt0, 1 dt1 {instrument, detector}, 2 dtS {skymap}, 3 dtC {instrument,
+detector} with isCalibration=True, 4 dtB {instrument, skymap}; data ID d = 64 * (skymap index + 1 or 0) + 16 * instrument
++ detector, restricted to the dimensions of the dataset type; dataset k -> the UUID the implementation returned for the
+k-th successful put.
 """
 from __future__ import annotations
 
@@ -30,12 +32,38 @@ def cnum(name):
     return int(name[1:])
 
 
-def did_of(d):
-    return {"instrument": f"Cam{d // 16}", "detector": d % 16}
+TYN = {0: "dt0", 1: "dt1", 2: "dtS", 3: "dtC", 4: "dtB"}
+TYDIMS = {0: ("instrument", "detector"), 1: ("instrument", "detector"), 2: ("skymap",), 3: ("instrument", "detector"),
+          4: ("instrument", "skymap")}
+GOVDIMS = {(0,): ("instrument", "detector"), (1,): ("skymap",), (0, 1): ("instrument", "skymap")}
 
 
-def d_of(data_id):
-    return 16 * int(str(data_id["instrument"])[3:]) + int(data_id["detector"])
+def tyname(ty):
+    return TYN.get(ty, f"dt{ty}")
+
+
+def did_of(ty, d):
+    dims = TYDIMS.get(ty, ("instrument", "detector"))
+    out = {}
+    if "instrument" in dims:
+        out["instrument"] = f"Cam{(d // 16) % 4}"
+    if "detector" in dims:
+        out["detector"] = d % 16
+    if "skymap" in dims:
+        out["skymap"] = f"S{d // 64 - 1}"
+    return out
+
+
+def d_of(ty, data_id):
+    dims = TYDIMS.get(ty, ("instrument", "detector"))
+    d = 0
+    if "instrument" in dims:
+        d += 16 * int(str(data_id["instrument"])[3:])
+    if "detector" in dims:
+        d += int(data_id["detector"])
+    if "skymap" in dims:
+        d += 64 * (int(str(data_id["skymap"])[1:]) + 1)
+    return d
 
 
 def _cyclic(chains: dict) -> bool:
@@ -70,14 +98,14 @@ class Driver:
         self.root, self.butler = fx.make_repo()
         for i in range(NINST):
             fx.add_instrument(self.butler, f"Cam{i}", detectors=range(NDET), filters=())
-        fx.add_dataset_type(self.butler, "dt0")
-        fx.add_dataset_type(self.butler, "dt1")
-        # a governor the searched dataset types do NOT have: two skymaps and a dataset type over {skymap} only, so that
-        # collection summaries carry skymap values and find-first queries can be constrained by a foreign governor
+        # a second governor (skymap): dataset types over {skymap} only and over {instrument, skymap}, so that collection
+        # summaries carry skymap values and find-first queries can be constrained by a governor the searched dataset
+        # type does not have (dt0, dt1, dtC) or has (dtS, dtB)
         for g in range(2):
             self.butler.registry.insertDimensionData("skymap", {"name": f"S{g}", "hash": bytes([g]) * 4, "tract_max": 1,
                                                                 "patch_nx_max": 1, "patch_ny_max": 1})
-        fx.add_dataset_type(self.butler, "dtS", dimensions=("skymap",))
+        for ty, nm in TYN.items():
+            fx.add_dataset_type(self.butler, nm, dimensions=TYDIMS[ty], is_calibration=(ty == 3))
         self.reg = self.butler.registry
         self.sql = self.butler._registry
         self.refs = {}
@@ -98,7 +126,8 @@ class Driver:
         kind = op[0]
         c = self.butler.collections
         if kind == "reg":
-            self.reg.registerCollection(cname(op[1]), {"run": self.CT.RUN, "tagged": self.CT.TAGGED, "chained": self.CT.CHAINED}[op[2]])
+            self.reg.registerCollection(cname(op[1]), {"run": self.CT.RUN, "tagged": self.CT.TAGGED, "chained": self.CT.CHAINED,
+                                                       "calib": self.CT.CALIBRATION}[op[2]])
         elif kind == "rmcoll":
             self.reg.removeCollection(cname(op[1]))
         elif kind == "set":
@@ -106,14 +135,23 @@ class Driver:
             if k in self.refs:
                 self.reg.associate(cname(coll), [self.refs[k]])
             else:
-                ref = self.butler.put({"k": k}, f"dt{ty}", did_of(d), run=cname(coll))
+                ref = self.butler.put({"k": k}, tyname(ty), did_of(ty, d), run=cname(coll))
                 self.refs[k] = ref
                 self.id2k[str(ref.id)] = k
         elif kind == "sky":
-            # a dataset of the {skymap}-only type: invisible to the searches for dt0 / dt1, but it puts a skymap value
-            # into the collection's governor summary
+            # (older replays) a dataset of the {skymap}-only type = ["set", coll, 2, 64 * (g + 1), fresh k]
             _, coll, g = op
-            self.butler.put({"sky": g}, "dtS", {"skymap": f"S{g}"}, run=cname(coll))
+            self.butler.put({"k": -1}, "dtS", {"skymap": f"S{g}"}, run=cname(coll))
+        elif kind == "cert":
+            from lsst.daf.butler import Timespan
+            _, coll, ty, d, k = op
+            self.reg.certify(cname(coll), [self.refs[k]], Timespan(None, None))
+        elif kind == "type":
+            _, ty, gs, cal = op
+            fx.add_dataset_type(self.butler, tyname(ty), dimensions=GOVDIMS[tuple(gs)], is_calibration=bool(cal))
+        elif kind == "editflat":
+            _, p, cs = op
+            self.reg.setCollectionChain(cname(p), [cname(x) for x in cs], flatten=True)
         elif kind == "edit":
             _, ek, p, cs, via = op
             names = [cname(x) for x in cs]
@@ -171,16 +209,19 @@ class Driver:
             return {"e": fx.err_class(e)}
         assert t == "find"
         path = [cname(x) for x in p["ns"]]
-        dt = f"dt{p['ty']}"
+        ty = p["ty"]
+        dt = tyname(ty)
         out = {}
-        # fg: constrain the query-based searches by a governor the dataset type does not have (skymap); every skymap
-        # named exists, so the answer must be the one of the unconstrained search
-        fg = {} if p.get("fg") is None else {"where": f"skymap = 'S{p['fg']}'"}
+        # fg / ig: constrain the query-based searches through the WHERE clause by skymap / instrument (a governor the
+        # dataset type has, or one it does not have; every value named exists)
+        terms = ([] if p.get("fg") is None else [f"skymap = 'S{p['fg']}'"]) + \
+                ([] if p.get("ig") is None else [f"instrument = 'Cam{p['ig']}'"])
+        fg = {"where": " AND ".join(terms)} if terms else {}
         for api in p["apis"]:
             per_d = {}
             if p["gc"] or api in (0, 1, 4):
                 for d in p["ds"]:
-                    per_d[str(d)] = self._find_one(api, dt, did_of(d), path, fg)
+                    per_d[str(d)] = self._find_one(api, dt, did_of(ty, d), path, fg)
             else:
                 # one unconstrained query, split by data ID
                 try:
@@ -189,7 +230,7 @@ class Driver:
                     else:
                         refs = list(self.reg.queryDatasets(dt, collections=path, findFirst=True, **fg))
                     for d in p["ds"]:
-                        per_d[str(d)] = {"l": self.ks([r for r in refs if d_of(r.dataId) == d])}
+                        per_d[str(d)] = {"l": self.ks([r for r in refs if d_of(ty, r.dataId) == d])}
                 except Exception as e:  # noqa: BLE001
                     for d in p["ds"]:
                         per_d[str(d)] = {"e": fx.err_class(e)}
